@@ -456,6 +456,8 @@ def shared_weights(ctx):
     ctx.check("R11.2", "shared-weights", not bad and len(sub.obligations) >= 3, "repetitions-not-tied", "src/feedback.rs", "%d facts about Feedback::create" % len(sub.obligations))
 
 
+RULES["R11.2"] += " | shared-weights: the coupled groups / cloned repetitions of Feedback::create (R10.1 re-run here)"
+
 def run(ctx):
     ctx.guard("R11.2", "shared-weights", shared_weights, ctx)
     r = ctx.guard("R11.1", "dispatch", r1, ctx)
